@@ -12,23 +12,26 @@ Definition is_space (r : rune) : bool :=
   (N.leb 8192 r && N.leb r 8202) || N.eqb r 8232 || N.eqb r 8233 || N.eqb r 8239 || N.eqb r 8287 || N.eqb r 12288.
 Definition is_colon (r : rune) : bool := N.eqb r 58.
 
-(* splitFunc: state = (lastQuote option, current chunk reversed, result reversed) *)
-Fixpoint split_go (sep : rune -> bool) (inp : str) (q : option rune) (chunk : str) (acc : list str) : option (list str) :=
+(* splitFunc: state = (lastQuote option, current chunk reversed, result reversed); [keep] = keepEmpty: an empty
+   chunk (nothing between two separators, before the first or after the last one) is kept instead of dropped *)
+Definition flush (keep : bool) (chunk : str) (acc : list str) : list str :=
+  if keep then rev chunk :: acc else match chunk with [] => acc | _ => rev chunk :: acc end.
+Fixpoint split_go (keep : bool) (sep : rune -> bool) (inp : str) (q : option rune) (chunk : str) (acc : list str) : option (list str) :=
   match inp with
   | [] => match q with
           | Some _ => None
-          | None => Some (rev (match chunk with [] => acc | _ => rev chunk :: acc end))
+          | None => Some (rev (flush keep chunk acc))
           end
   | r :: t =>
     match q with
-    | None => if is_quote r then split_go sep t (Some r) (r :: chunk) acc
-              else if sep r then split_go sep t None [] (match chunk with [] => acc | _ => rev chunk :: acc end)
-              else split_go sep t None (r :: chunk) acc
-    | Some lq => if N.eqb r lq then split_go sep t None (r :: chunk) acc
-                 else split_go sep t q (r :: chunk) acc
+    | None => if is_quote r then split_go keep sep t (Some r) (r :: chunk) acc
+              else if sep r then split_go keep sep t None [] (flush keep chunk acc)
+              else split_go keep sep t None (r :: chunk) acc
+    | Some lq => if N.eqb r lq then split_go keep sep t None (r :: chunk) acc
+                 else split_go keep sep t q (r :: chunk) acc
     end
   end.
-Definition split_func sep inp := split_go sep inp None [] [].
+Definition split_func keep sep inp := split_go keep sep inp None [] [].
 
 Definition remove_quote (f : str) : str :=
   match f with
@@ -43,27 +46,34 @@ Inductive token := TKV (q v : str) | TKVV (q sq v : str) | TSearch (t : str).
 Definition has_prefix_colon (f : str) := match f with r :: _ => is_colon r | [] => false end.
 Definition has_suffix_colon (f : str) := match rev f with r :: _ => is_colon r | [] => false end.
 
-Fixpoint tokenize_fields (fields : list str) : option (list token) :=
+Definition is_nil (c : str) : bool := match c with [] => true | _ => false end.
+
+(* [strict] = the colon splitting keeps empty chunks, so that "status::open" has one and is refused with
+   "empty qualifier or value"; strict = false is the lexer as it was (the empty-chunk test could never fire) *)
+Fixpoint tokenize_fields_k (strict : bool) (fields : list str) : option (list token) :=
   match fields with
   | [] => Some []
   | f :: rest =>
-    match split_func is_colon f with
+    match split_func strict is_colon f with
     | None => None
     | Some chunks =>
       if has_prefix_colon f || has_suffix_colon f then None else
+      if existsb is_nil chunks then None else
       let cs := map remove_quote chunks in
       match (match cs with
              | [a] => Some (TSearch a)
              | [a; b] => Some (TKV a b)
              | [a; b; c] => Some (TKVV a b c)
-             | _ => None end), tokenize_fields rest with
+             | _ => None end), tokenize_fields_k strict rest with
       | Some tk, Some tks => Some (tk :: tks)
       | _, _ => None
       end
     end
   end.
-Definition tokenize (q : str) : option (list token) :=
-  match split_func is_space q with None => None | Some fields => tokenize_fields fields end.
+Definition tokenize_k (strict : bool) (q : str) : option (list token) :=
+  match split_func false is_space q with None => None | Some fields => tokenize_fields_k strict fields end.
+Definition tokenize_fields := tokenize_fields_k true.
+Definition tokenize := tokenize_k true.
 
 Eval vm_compute in tokenize [97;58;34;98;32;99;34;32;100]. (* a:"b c" d *)
 
@@ -122,4 +132,7 @@ Definition step (q : query) (t : token) : option query :=
 
 Fixpoint steps (q : query) (ts : list token) : option query :=
   match ts with [] => Some q | t :: r => match step q t with None => None | Some q' => steps q' r end end.
-Definition parse (s : str) : option query := match tokenize s with None => None | Some ts => steps q0 ts end.
+Definition parse_k (strict : bool) (s : str) : option query := match tokenize_k strict s with None => None | Some ts => steps q0 ts end.
+Definition parse (s : str) : option query := parse_k true s.
+(* the parser before "an empty chunk between two colons is refused" *)
+Definition parse_lenient (s : str) : option query := parse_k false s.
